@@ -196,6 +196,11 @@ class Analysis:
 
     def local_term(self, bb, idx, l):
         if l in self.escaped:
+            ds = self.defs_of.get(l, [])
+            if len(ds) == 1 and ds[0].kind == 'param' and self.b.local_ty(l).startswith('&'):
+                # a reference parameter whose own slot is borrowed (`&mut self` captured by a closure) but never
+                # reassigned: it still denotes the parameter
+                return ('param', l)
             return ('mem', l)
         ds = self.reaching(l, bb, idx)
         if len(ds) == 1 and not ds[0].partial:
@@ -269,7 +274,11 @@ class Analysis:
             elif k == 'downcast':
                 continue
             elif k == 'index':
-                t = ('index', t, self.local_term(bb, idx, e['l']))
+                it = self.local_term(bb, idx, e['l'])
+                if t[0] == 'agg' and t[1] == 'array' and it[0] == 'const' and it[2] is not None and it[2].isdigit() and int(it[2]) < len(t[4]):
+                    t = t[4][int(it[2])][1]
+                else:
+                    t = ('index', t, it)
             elif k == 'cidx':
                 if t[0] == 'agg' and t[1] == 'array' and not e['end'] and e['off'] < len(t[4]):
                     t = t[4][e['off']][1]
